@@ -85,7 +85,7 @@ def sweep_specs():
 
 
 def total_runs(tier):
-    return len(sweep_specs()) + (600 if tier == 'quick' else 300000)
+    return len(sweep_specs()) + (600 if tier == 'quick' else 250000)
 
 
 def make_plan(i, master, tier):
